@@ -103,6 +103,7 @@ func (e *Engine) VerifyFunc(key string) (res *FnResult) {
 	cov := c.addObl("vacuity", "requires-sat", nil, st, TFalse, nil)
 	cov.Kind = "cover"
 	c.buildFrameSpec(fr, st)
+	c.buildGuards(fr, st)
 	c.runFunction(fr, st)
 	// postconditions
 	var retPCs []Term
@@ -135,6 +136,7 @@ func (e *Engine) VerifyFunc(key string) (res *FnResult) {
 		cv.Kind = "cover"
 	}
 	c.emitFrameObligations(st)
+	c.emitGuardObligations()
 	res.Obls = c.obls
 	res.Abstracted = sortedKeys(c.abstracted)
 	res.Assumptions = sortedKeys(c.assumptions)
@@ -345,4 +347,66 @@ func shortErr(s string) string {
 		return s[:i]
 	}
 	return s
+}
+
+// buildGuards reads `attr guarded <obj> <mutex> [exempt f,g]` from the contract.
+func (c *FnCtx) buildGuards(fr *Frame, st *State) {
+	ct := fr.contract
+	if ct == nil {
+		return
+	}
+	spec, ok := ct.Attrs["guarded"]
+	if !ok {
+		return
+	}
+	fs := strings.Fields(spec)
+	if len(fs) < 2 {
+		c.eng.errorf("%s: attr guarded OBJ MUTEX [exempt a,b]", ct.Name)
+		return
+	}
+	env := c.specEnv(fr, st)
+	env.useCells = false
+	defer func() {
+		if r := recover(); r != nil {
+			if se, ok := r.(specError); ok {
+				c.eng.errorf("%s: attr guarded: %s", ct.Name, se.msg)
+				return
+			}
+			panic(r)
+		}
+	}()
+	ox, err := parseSpecExpr(fs[0])
+	if err != nil {
+		c.eng.errorf("%v", err)
+		return
+	}
+	mx, err := parseSpecExpr(fs[1])
+	if err != nil {
+		c.eng.errorf("%v", err)
+		return
+	}
+	ov, ot := env.eval(ox)
+	mv, mt := env.eval(mx)
+	o, _ := env.scalar(ov, ot)
+	m, _ := env.scalar(mv, mt)
+	g := guardSpec{Obj: o, Mu: m, Exempt: map[string]bool{}}
+	if len(fs) >= 4 && fs[2] == "exempt" {
+		for _, f := range strings.Split(fs[3], ",") {
+			g.Exempt[f] = true
+		}
+	}
+	c.guards = append(c.guards, g)
+}
+
+func (c *FnCtx) emitGuardObligations() {
+	var names []string
+	for n := range c.guardObls {
+		names = append(names, n)
+	}
+	sort.Strings(names)
+	for _, n := range names {
+		tmp := &State{pc: TTrue}
+		o := c.addObl("held", n, nil, tmp, And(c.guardObls[n]...), nil)
+		o.Note = "every access to field " + n + " happens while the guarding mutex is held"
+	}
 }
